@@ -80,19 +80,23 @@ Record value := mkValue {
 Definition set_gen (v : value) (ts rep : Z) (own : option tape) (k : kind) : value :=
   mkValue (vid v) ts (vdmin v) (vdmax v) rep own k.
 
-(** * Switches for the two defects found (candidate patches under /verif/fixes)
+(** * Switches for the two defects found and since repaired in /repo
+      c1a0b35 fix: fake queue returns an error for a range width that overflows int64
+      df96f85 fix: fake queue returns an error when a timestamp would overflow int64
+    [true] = the code as it is now (patched); [false] reproduces the code before
+    the patch (kept so that the refutations of the unpatched variants remain as
+    regression witnesses: [update_ts_gen false false], [guard_width_gen false]). *)
+Definition fix_C20_1 : bool := true.   (* C20_1: width beyond int64 is an error (was: panic in Int63n) *)
+Definition fix_C20_2 : bool := true.   (* C20_2: timestamp addition beyond int64 is an error (was: silent wrap) *)
 
-    The model follows the code as it is NOW ([false]).  Once a patch is in /repo
-    the corresponding switch becomes [true]; nothing else changes. *)
-Definition fix_C20_1 : bool := false.   (* DEFECT C20_1: width beyond int64 panics in Int63n *)
-Definition fix_C20_2 : bool := false.   (* DEFECT C20_2: timestamp addition wraps silently *)
-
-(** DEFECT C20_1: [if right-left+1 <= 0 { return error }] in front of every
-    Int63n whose argument is a configured width; absent today, so the draw
-    panics for such a width *)
-Definition guard_width {A} (w : Z) (k : rres A) : rres A :=
-  if fix_C20_1 && (wrap64 w <=? 0) then RErr else k.
+(** [if right-left+1 <= 0 { return error }] in front of every Int63n whose
+    argument is a configured width ([f1 = false]: the check is absent and the
+    draw panics for such a width) *)
+Definition guard_width_gen (f1 : bool) {A} (w : Z) (k : rres A) : rres A :=
+  if f1 && (wrap64 w <=? 0) then RErr else k.
+Definition guard_width {A} (w : Z) (k : rres A) : rres A := guard_width_gen fix_C20_1 w k.
 Arguments guard_width : simpl never.
+Arguments guard_width_gen : simpl never.
 
 (** * Per-kind generators *)
 
@@ -132,8 +136,7 @@ Definition update_int (v : Z) (d : ndist) (t : tape) : rres (Z * ndist) :=
           let left := if delta then dmn else mn in
           let right := if delta then dmx else mx in
           let base := if delta then v else 0 in
-          (* DEFECT C20_1 (guard_width): a width beyond int64 makes Int63n panic
-             today; with the patch it is an error *)
+          (* C20_1 (guard_width): a width beyond int64 is an error *)
           guard_width (right - left + 1)
           (rbind (int63n (wrap64 (right - left + 1)) t) (fun r t' =>
             RV (clampZ mn mx (wrap64 (base + wrap64 (r + left))), d) t'))
@@ -155,7 +158,7 @@ Definition update_uint (v : Z) (d : ndist) (t : tape) : rres (Z * ndist) :=
           let left := if delta then dmn else wrap64 mn in
           let right := if delta then dmx else wrap64 mx in
           let base := if delta then v else 0 in
-          (* DEFECT C20_1 (guard_width): as in update_int *)
+          (* C20_1 (guard_width): as in update_int *)
           guard_width (right - left + 1)
           (rbind (int63n (wrap64 (right - left + 1)) t) (fun r t' =>
             let tmp := wrap64 (wrap64 base + wrap64 (r + left)) in
@@ -231,19 +234,19 @@ Definition update_kind (k : kind) (t : tape) : rres kind :=
   | KUnset => RErr
   end.
 
-(** updateTimestamp *)
-Definition update_ts (ts dmin dmax : Z) (t : tape) : rres Z :=
+(** updateTimestamp.  [f1], [f2]: the two repairs (see the switches above). *)
+Definition update_ts_gen (f1 f2 : bool) (ts dmin dmax : Z) (t : tape) : rres Z :=
   if ts <? 0 then RErr
   else if (dmin >? dmax) || (dmin <? 0) then RErr
   else
-    (* DEFECT C20_1 (guard_width): delta_max - delta_min + 1 = 2^63 makes Int63n
-       panic today; with the patch it is an error *)
-    guard_width (dmax - dmin + 1)
+    (* C20_1: [if max-min+1 <= 0 { return error }] *)
+    guard_width_gen f1 (dmax - dmin + 1)
     (rbind (int63n (wrap64 (dmax - dmin + 1)) t) (fun r t' =>
       let nt := wrap64 (ts + r + dmin) in
-      (* DEFECT C20_2: the sum wraps silently today ([fix_C20_2 = false]); with the
-         patch [if nt < t { return error }] this branch returns RErr *)
-      if fix_C20_2 && (nt <? ts) then RErr else RV nt t')).
+      (* C20_2: [if nt < t { return error }] *)
+      if f2 && (nt <? ts) then RErr else RV nt t')).
+
+Definition update_ts := update_ts_gen fix_C20_1 fix_C20_2.
 
 (** nextValue.  [g] is the tape of the queue's generator; the result carries
     the new value ([None]: repeats exhausted, [v.v = nil]) and the new [g]. *)
